@@ -362,7 +362,7 @@ Proof.
   intros Hents IHlvl. induction fuel as [|fu IH]; intros s t ld Hs Ht Hp; cbn [attr_loop]; [exact I|].
   destruct (at_end s) eqn:Eend.
   { cbn. split; auto. cbn. eapply PV_valid; eauto. apply SInv0_at_end_Bd; auto. }
-  eapply safe_bind; [apply curr_byte_unchecked_safe; auto|]. intros x (r & Hr & Hlt). cbv beta.
+  eapply safe_bind; [apply (curr_byte_unchecked_safe text); auto|]. intros x (r & Hr & Hlt). cbv beta.
   pose proof (SInv0_byte s x r Hs Hr) as Hbyte.
   destruct (x =? 38) eqn:E38; cbn [negb].
   - (* a reference *)
@@ -424,7 +424,7 @@ Proof.
   intros Hc Hv. unfold normalize_attribute. cbv zeta.
   destruct (existsb _ _); [|cbn; auto].
   eapply safe_bind.
-  { apply norm_attr_lvl_safe; auto; [apply Hc|constructor|reflexivity]. }
+  { apply norm_attr_lvl_safe; auto; try apply Hc; try apply Valid_nil; try reflexivity. }
   intros [t ld] [Ht _]. cbn [fst] in Ht. cbv beta iota.
   eapply safe_bind; [apply tb_finish_safe; auto|]. intros bs _. cbn.
   split; [apply Core_set_ld; auto|auto].
@@ -482,7 +482,7 @@ Lemma parse_next_chunk_safe s entities : SInv0 s -> at_end s = false -> EntsOk e
   safe (parse_next_chunk text s entities) (ChunkOk s).
 Proof.
   intros Hs Eend Hents. unfold parse_next_chunk. rewrite Eend.
-  eapply safe_bind; [apply curr_byte_unchecked_safe; auto|]. intros x (r & Hr & Hlt). cbv beta.
+  eapply safe_bind; [apply (curr_byte_unchecked_safe text); auto|]. intros x (r & Hr & Hlt). cbv beta.
   destruct (x =? 38) eqn:E38.
   - assert (x = 38) by lia. subst x.
     assert (Hsi : SInv s) by (eapply SInv_of_byte; eauto).
